@@ -70,7 +70,7 @@ def ram_spec(profile):
 
 ASG_FAULTS = ["cpu_over", "ram_over", "two_ops", "zero_cpu", "zero_ram", "no_ops", "completed_op", "skip_parent",
               "unknown_pool", "neg_pool", "double", "running_op"]
-SUS_FAULTS = ["any", "any", "suspending", "unknown", "dup", "wrongpool", "suspended"]
+SUS_FAULTS = ["any", "any", "suspending", "unknown", "dup", "wrongpool", "suspended", "negpool", "negpool", "bigpool"]
 
 
 @st.composite
@@ -256,6 +256,20 @@ class Episode:
         real_sus = []
         sus_by_pool = {i: [] for i in range(npools)}
         for pool, idx, mode in sus_cmds:
+            if mode in ("negpool", "bigpool"):
+                # a suspension that names a pool which does not exist; with -k the container is taken from the pool that
+                # Python's negative indexing would reach, so that a lookup by index would find it
+                k = 1 + idx % npools
+                src = self.mp[npools - k] if mode == "negpool" else self.mp[idx % npools]
+                cand = [c for c in src.active if c.can_suspend] or list(src.active)
+                if not cand:
+                    continue
+                badpool = -k if mode == "negpool" else npools + idx % 2
+                real_sus.append(Suspend(cand[idx % len(cand)].cid, badpool))
+                expect = "reject"
+                reasons.append(("C09", f"suspension naming pool {badpool} of {npools}"))
+                out.label("sus_attempt_" + mode)
+                continue
             m = self.mp[pool]
             cid = None
             if mode in ("ok", "dup"):
